@@ -140,6 +140,9 @@ func (block *CBlock) registeredCandidates() []*Candidate {
 }
 
 func (block *CBlock) Ranking(voteLogs types.ChangeLogSlice) {
+	// every account of this block with a candidate profile belongs to the all-candidates index,
+	// also if it has no vote log (it registered and unregistered in the same block)
+	block.dye(block.filterCandidates(block.AccountTrieDB.Collect(block.Block.Height())))
 	// a candidate whose votes are 0 already produces no vote log when it unregisters. It must leave the list all the same
 	if len(voteLogs) <= 0 && len(block.collectUnregisters()) <= 0 {
 		return
